@@ -16,7 +16,8 @@ from ..labels import dec, enc
 from ..snap import integrity, snapshot
 from . import c10, c11, c16, c19, common
 
-EXTRA_OPS = {"twin", "convert", "derive", "write", "read", "spawn_gen", "write_coll", "read_coll", "subhypergraph"}
+EXTRA_OPS = {"twin", "convert", "derive", "write", "read", "spawn_gen", "write_coll", "read_coll", "subhypergraph",
+             "taken_run"}
 EXPECTED_PROBES = ["auto_add_on_actor_from:copy", "auto_add_on_actor_from:pickle", "auto_add_on_actor_from:ctor",
                    "auto_add_on_actor_from:conv", "auto_add_on_actor_from:file", "auto_add_on_actor_from:generator",
                    "auto_add_on_actor_from:relabel_np", "explicit_idx_0", "explicit_idx_int_like_float",
@@ -55,6 +56,10 @@ def finish(sim):
 def next_record(sim):
     g = sim.gen
     w = sim.world
+    if g.r.random() < 0.002:
+        # a long run of occupied IDs ahead of the automatic counter (size thresholds of the probing)
+        return {"uid": g.next_uid(), "op": "taken_run", "kind": g.r.choice(["H", "DH", "H"]),
+                "n": g.r.choice([40, 300, 1001, 1500, 4100]), "how": g.r.choice(["add_node_to_edge", "descending_bulk", "idx0_then_more"])}
     if not w.actors or g.r.random() > sim.cfg["p_prov"]:
         return None
     free = [f"A{i}" for i in range(4) if f"A{i}" not in w.actors]
@@ -121,8 +126,56 @@ def do_spawn_gen(sim, rec):
     return rec["new"]
 
 
+def do_taken_run(sim, rec):
+    """self-contained: n consecutive integer IDs are occupied by routes that do not advance the
+    counter; the next automatic additions must get fresh IDs and leave every existing edge alone"""
+    import warnings
+    w = sim.world
+    xgi = sim.xgi
+    kind, n, how = rec["kind"], rec["n"], rec["how"]
+    with warnings.catch_warnings():
+        warnings.simplefilter("ignore")
+        N = xgi.DiHypergraph() if kind == "DH" else xgi.Hypergraph()
+        mem = (lambda e: ([("t", e)], [("h", e)])) if kind == "DH" else (lambda e: [("a", e), ("b", e)])
+        if how == "add_node_to_edge":
+            for e in range(n):
+                if kind == "DH":
+                    N.add_node_to_edge(e, ("t", e), "in")
+                    N.add_node_to_edge(e, ("h", e), "out")
+                else:
+                    N.add_node_to_edge(e, ("a", e))
+                    N.add_node_to_edge(e, ("b", e))
+        elif how == "descending_bulk":
+            N.add_edges_from([(mem(e), e) for e in range(n - 1, -1, -1)])
+        else:
+            N.add_edge(mem(0), idx=0)
+            N.add_edges_from([(mem(e), e) for e in range(n - 1, 0, -1)])
+        before = {e: (N.edges.dimembers(e) if kind == "DH" else N.edges.members(e)) for e in N.edges}
+        fake = dict(rec, op="taken_run:" + how)
+        w.stats["op:taken_run." + kind] += 1
+        try:
+            N.add_edge(([("x", 1)], [("y", 1)]) if kind == "DH" else [("x", 1), ("y", 1)])
+            N.add_edges_from([([("x", 2)], [("y", 2)])] if kind == "DH" else [[("x", 2), ("y", 2)]])
+        except Exception as ex:  # noqa
+            w.find({"C04"}, "automatic_add_failed_after_run_of_taken_ids", fake, kind, f"n={n}: {type(ex).__name__}: {ex}")
+            return None
+        after = {e: (N.edges.dimembers(e) if kind == "DH" else N.edges.members(e)) for e in N.edges}
+        changed = [e for e in before if after.get(e) != before[e]]
+        if changed:
+            # (an overwritten edge leaves the memberships of its old members behind: the incidence
+            # is no longer two-way either)
+            w.find({"C04", "C02" if kind == "DH" else "C01"}, "existing_edge_altered_by_add", fake, kind,
+                   f"{n} occupied IDs ahead of the counter ({how}): automatic additions changed edge(s) {changed[:3]!r}")
+        elif len(after) != len(before) + 2:
+            w.find({"C04"}, "missing_new_edge", fake, kind,
+                   f"{n} occupied IDs ahead of the counter ({how}): {len(after) - len(before)} new edges after two automatic additions")
+    return None
+
+
 def exec_extra(sim, rec):
     op = rec["op"]
+    if op == "taken_run":
+        return do_taken_run(sim, rec)
     if op == "twin":
         return common.do_twin(sim, rec)
     if op == "convert":
